@@ -242,7 +242,7 @@ C17Event(o, k, b) ==
                    /\ listSame(rep.notConsideredAlternatives, after.notConsidered)
                 THEN {} ELSE {BFail("C17", "report-differs", ""), BFail("C09", "report-differs", "")})
 
-(* both blur directions occur among the clearly moved values of one decision (2^-39 false alarm) *)
+(* both blur directions occur among the clearly moved values of one decision (>= 30 of them: 2^-29 false alarm per decision) *)
 C17Directions(o) ==
   LET evs == BiasEvents(o) rb == ReqBiases(o) u == o.case.unit IN
   IF \E k \in DOMAIN evs :
@@ -254,7 +254,7 @@ C17Directions(o) ==
               cells == AllIds(before) \X StCritIds(before)
               up == {x \in cells : ValOfAlt(after, x[1], x[2]) > ValOfAlt(before, x[1], x[2]) + Slack}
               down == {x \in cells : ValOfAlt(after, x[1], x[2]) < ValOfAlt(before, x[1], x[2]) - Slack}
-          IN Cardinality(up) + Cardinality(down) >= 40 /\ (up = {} \/ down = {})
+          IN Cardinality(up) + Cardinality(down) >= 30 /\ (up = {} \/ down = {})
   THEN {BFail("C17", "one-direction-only", "")} ELSE {}
 
 (* ---------------- C18: criteria concealment ---------------- *)
